@@ -430,7 +430,13 @@ def gen_history(rng, ctx):
             ops_.append({'op': 'gen_finish', 'h': h})
     for _ in range(rng.randint(1, 3)):
         ops_.append(pal.call(rng))
-    return {'ops': ops_, 'timeout': 300.0}
+    spec = {'ops': ops_, 'timeout': 300.0}
+    if rng.random() < 0.2:
+        # the history moves between 2-3 long-lived threads (still strictly
+        # one call at a time): per-thread state that outlives a call shows
+        nthr = rng.choice([2, 3])
+        spec['hop'] = [rng.randrange(nthr) for _ in ops_]
+    return spec
 
 
 POLICY_P = [0.001, 0.003, 0.01, 0.01, 0.03, 0.05, 0.1, 0.3]
@@ -632,8 +638,40 @@ PERTURBING = {'gen_close', 'gen_throw', 'gen_drop', 'lex_clear',
               'mut_newtype', 're_purge', 'lex_separate'}
 
 
+class _Hopper:
+    """Executes callables one at a time on a few long-lived worker threads
+    (strictly sequentially: the caller waits for each one), so that a
+    history can move between threads without any concurrency."""
+
+    def __init__(self, n):
+        import queue
+        import threading
+        self.qs = [queue.Queue() for _ in range(n)]
+        self.done = queue.Queue()
+        for q in self.qs:
+            threading.Thread(target=self._loop, args=(q,),
+                             daemon=True).start()
+
+    def _loop(self, q):
+        sys.setrecursionlimit(max(sys.getrecursionlimit(), ops.AMPLE))
+        while True:
+            fn = q.get()
+            try:
+                self.done.put(('ok', fn()))
+            except BaseException as e:           # noqa
+                self.done.put(('exc', e))
+
+    def call(self, t, fn):
+        self.qs[t % len(self.qs)].put(fn)
+        kind, val = self.done.get()
+        if kind == 'exc':
+            raise val
+        return val
+
+
 def run_history(spec, refs):
     ses = ops.Session()
+    hopper = _Hopper(max(spec['hop']) + 1) if spec.get('hop') else None
     viols = []
     custom_seen = {}
     perturbed = False
@@ -643,7 +681,11 @@ def run_history(spec, refs):
     for i, op in enumerate(spec['ops']):
         st0 = ops.interp_state()
         lim0 = sys.getrecursionlimit()
-        rec = ses.do(op)
+        if hopper is not None:
+            rec = hopper.call(spec['hop'][i % len(spec['hop'])],
+                              lambda op=op: ses.do(op))
+        else:
+            rec = ses.do(op)
         kind = op['op']
         d_ = ops.state_diff(st0, ops.interp_state())
         if sys.getrecursionlimit() != lim0:
@@ -747,6 +789,8 @@ def run_history(spec, refs):
     st['ops'] = len(spec['ops'])
     if spec.get('long'):
         st['long_histories'] = 1
+    if spec.get('hop'):
+        st['thread_hopping_histories'] = 1
     st['checked_ops'] = nchecked
     return {'status': 'violation' if viols else 'ok', 'viol': viols,
             'stats': st, 'sig': 'H:' + canon.digest(sigparts)[0],
@@ -1080,7 +1124,7 @@ PROBES = ['probe_descheduled_holding_lexer_lock',
           'interrupt_in_lazy_pipeline',
           'interrupt_in_indent_filter', 'interrupt_in_splitter',
           'headroom_fired', 'instr_points', 'long_histories',
-          'custom_config_repeat_checked']
+          'custom_config_repeat_checked', 'thread_hopping_histories']
 
 COMPONENTS = {
     'real': ['all of sqlparse (lexer, splitter, grouping, filters, '
